@@ -3,6 +3,7 @@ package main
 import (
 	"fmt"
 	"net/url"
+	"sort"
 	"strings"
 
 	"verifharness/vh"
@@ -211,7 +212,60 @@ func genGone(g *vh.Gen) {
 	}
 }
 
+// genAsm: the assembled server (config.Process + server.FullAssembly + Services.Start in a child process): base
+// path in every spelling an operator may use, deliveries over SMTP, every client method and web-UI fetches.
+func genAsm(g *vh.Gen) {
+	spellings := []string{"", "/p", "p", "p/", "/a/b/", "a/b"}
+	for rep := 0; rep < g.N(1, 8); rep++ {
+		for i, sp := range spellings {
+			h := &hgen{g: g, naming: "local", pool: []string{"alpha", "a.b", "x_y"}, adds: map[string]int{}}
+			for j := 0; j < 2+g.Intn(3); j++ {
+				h.add()
+			}
+			var mbs []string
+			for mb := range h.adds {
+				mbs = append(mbs, mb)
+			}
+			sort.Strings(mbs)
+			mb := mbs[g.Intn(len(mbs))]
+			cop := func(op, name, arg string) { h.ops = append(h.ops, fmt.Sprintf("c:%s:%s:%s", op, vh.HS(name), arg)) }
+			k0 := vh.HS("k0")
+			cop("list", mb, k0)
+			cop("get", g.Pick(mb, strings.ToUpper(mb), mb+"+x"), k0)
+			cop("src", mb, vh.HS("latest"))
+			cop("seen", mb, k0)
+			cop("hget", mb, "0")
+			for _, tmpl := range []int{3, 4, 5, 6} {
+				h.ops = append(h.ops, fmt.Sprintf("r:GET:%d:%s:%s:tl0:%s:%s", tmpl, vh.HS(url.QueryEscape(mb)), g.Pick(k0, vh.HS("latest"), vh.HS("nosuch")), vh.HS("0"), vh.HS("a.bin")))
+			}
+			cop("msrc", mb, k0)
+			cop("get", "nobody", k0)
+			h.add()
+			cop("hsrc", mb, "0")
+			cop("list", mbs[0], k0)
+			switch g.Intn(3) {
+			case 0:
+				cop("del", mb, k0)
+			case 1:
+				cop("mdel", mb, vh.HS("latest"))
+			default:
+				cop("hdel", mb, "0")
+			}
+			if g.Chance(0.5) {
+				cop("purge", mbs[len(mbs)-1], k0)
+			}
+			cop("list", mb, k0)
+			st := "mem"
+			if (i+rep)%2 == 1 {
+				st = "file"
+			}
+			g.Emit("asm14", st, vh.HS(sp), strings.Join(h.ops, ","))
+		}
+	}
+}
+
 func gen(g *vh.Gen) {
+	genAsm(g)
 	genGone(g)
 	n := g.N(300, 10000)
 	for i := 0; i < n; i++ {
